@@ -168,14 +168,17 @@ def deductive_obligations() -> list:
                     sz = spec_v.z if isinstance(spec_v, SV) else z3.StringVal(spec_v)
                     obs.append(Obligation(f'{name}:specifier-param:{pid}#{e.extra["k"]}', assumptions=asm,
                                           goal=sz == want, detail="':*' is appended to a specifier without ':'", **cm))
-                    bare = z3.And(z3.Not(colon), z3.Not(star))
+                    # a bare id: no ':' and no glob metacharacter ('fo?' and 'fo[o]' are glob patterns: "glob patterns
+                    # by matching 'id:version'", so they select every match, not the most recent one)
+                    glob = z3.Or(star, z3.Contains(t.z, z3.StringVal('?')), z3.Contains(t.z, z3.StringVal('[')))
+                    bare = z3.And(z3.Not(colon), z3.Not(glob))
                     obs.append(Obligation(f'{name}:bare-id-one-most-recent:{pid}#{e.extra["k"]}', assumptions=asm,
                                           goal=z3.And(z3.BoolVal(lim == 1 and desc) == bare,
                                                       z3.BoolVal(lim in (1, -1)),
                                                       z3.Implies(z3.Not(bare), z3.BoolVal(lim == -1 and not desc))),
                                           detail='LIMIT 1 with ORDER BY rowid DESC exactly for a bare id (no ":" and '
-                                                 'no "*"): exactly one lexicon, the most recently added; otherwise no '
-                                                 'limit', **cm))
+                                                 'no glob character * ? [): exactly one lexicon, the most recently '
+                                                 'added; otherwise no limit', **cm))
                     lp = params.get('language')
                     lang_ok = (lp is None and lang is None) or (lp is lang)
                     obs.append(Obligation(f'{name}:language-param:{pid}#{e.extra["k"]}', decided=bool(lang_ok),
@@ -252,7 +255,7 @@ INSTALL_ORDERS = [
     [('foo', '1.0', 'en'), ('foobar', '1.0', 'en'), ('bar', '1', 'de'), ('foo', '2.0-rc+1', 'en')],
 ]
 POOL = ['*', 'foo', 'foo:*', 'foo:1.0', 'foo:2.0-rc+1', '*:1.0', 'foo*', 'foo*:*', 'fo?', 'bar', 'bar:1', 'baz', '*:9',
-        'foobar', '*bar:*', 'foo:2*']
+        'foobar', '*bar:*', 'foo:2*', 'fo[o]', '?oo']
 
 
 def reference(installed, spec_list, lang):
@@ -260,7 +263,7 @@ def reference(installed, spec_list, lang):
     out = []
     for spec in spec_list.split():
         cands = [x for x in installed if lang is None or x[2] == lang]
-        if ':' not in spec and '*' not in spec:
+        if ':' not in spec and not any(c in spec for c in '*?['):
             pat = spec + ':*'
             m = [x for x in cands if fnmatch.fnmatchcase(f'{x[0]}:{x[1]}', pat)]
             m = m[-1:]                       # the most recently added one
